@@ -944,6 +944,9 @@ func checkC16(d *lib.Driver, c *c16Case) error {
 		rep.Count("inverse.skipped_marshal_iface_struct", 1)
 	} else if norm0 != want {
 		reasons := c.knownReasons()
+		if c.omittedSiblingSpelling() {
+			reasons = []string{"C16-omitted-member-sibling-spelling"}
+		}
 		if c.spec.NestEmbed && c.route != "marshal" && c.nestEmbedExplains(norm0) {
 			reasons = []string{"C16-nest-embed"}
 		}
@@ -1254,6 +1257,80 @@ func boundaryC16(emit func(*c16Case)) {
 	}
 }
 
+// omittedSiblingSpelling: the outcome is the one finding C16-omitted-member-sibling-spelling predicts. The
+// route uses tags; some top-level field f has a tag name with omitempty and an empty value (no member
+// is written); walking the spellings of f's Go name in recomp's order (Go name, first letter lowered,
+// all lowered), the first one that names a written member is the tag name of a sibling g; then f
+// receives g's member. Predicted: every such f holds exactly g's value (converted to f's type as
+// reflect converts it), every other field its own; where the kinds differ a conversion error is
+// accepted as well (whether the member converts depends on the route: int64 vs the float64 of
+// ForceFloat).
+func (c *c16Case) omittedSiblingSpelling() bool {
+	rt := c.d.RT
+	if !c.tagsUsed() || rt.Kind() != reflect.Struct {
+		return false
+	}
+	tagName := func(f reflect.StructField) (string, bool) {
+		tag, _ := f.Tag.Lookup("json")
+		parts := strings.Split(tag, ",")
+		omit := false
+		for _, p := range parts[1:] {
+			omit = omit || p == "omitempty"
+		}
+		return parts[0], omit
+	}
+	written := func(j int) (string, bool) { // the key field j is written under, if it is written
+		f := rt.Field(j)
+		name, omit := tagName(f)
+		if name == "-" && !strings.Contains(string(f.Tag), ",") || f.PkgPath != "" || f.Anonymous {
+			return "", false
+		}
+		if omit && c.v.Field(j).IsZero() {
+			return "", false
+		}
+		if name == "" {
+			name = f.Name
+		}
+		return name, true
+	}
+	w := reflect.New(rt).Elem()
+	w.Set(c.v)
+	hits, mixed := 0, false
+	for i := 0; i < rt.NumField(); i++ {
+		f := rt.Field(i)
+		name, _ := tagName(f)
+		if _, isWritten := written(i); isWritten || name == "" || name == "-" || f.PkgPath != "" || f.Anonymous {
+			continue
+		}
+	spellings:
+		for _, sp := range []string{f.Name, strings.ToLower(f.Name[:1]) + f.Name[1:], strings.ToLower(f.Name)} {
+			for j := 0; j < rt.NumField(); j++ {
+				if k, ok := written(j); j != i && ok && k == sp {
+					hits++
+					gv := c.v.Field(j)
+					switch {
+					case gv.Type().Kind() == f.Type.Kind():
+						w.Field(i).Set(gv.Convert(f.Type))
+					case gv.Type().ConvertibleTo(f.Type):
+						mixed = true
+						w.Field(i).Set(gv.Convert(f.Type))
+					default:
+						return c.errs[0] != ""
+					}
+					break spellings
+				}
+			}
+		}
+	}
+	if hits == 0 {
+		return false
+	}
+	if c.errs[0] != "" {
+		return mixed
+	}
+	return c.got[0].IsValid() && normValue(c.d, c.got[0], true) == normValue(c.d, w, true)
+}
+
 // collidingC16: struct types in which one field's TAG NAME is a spelling (exact, first letter lowered,
 // all lower case) of a DIFFERENT field's Go name, Go names that are spellings of sibling tags, tags
 // that differ in case only, and a field whose Go name spells the create key — scalar fields of
@@ -1326,6 +1403,72 @@ func collidingC16(seed uint64, emit func(*c16Case)) {
 			continue
 		}
 		types = append(types, reflect.StructOf(fs))
+	}
+	// finding C16-omitted-member-sibling-spelling: an omitempty field with an empty value next to a sibling
+	// whose tag name spells its Go name (the member is absent, the lookups fall through)
+	absent := []struct {
+		rt   reflect.Type
+		vals []any
+	}{
+		{reflect.StructOf([]reflect.StructField{fld("Kind", "type,omitempty", kinds[3]), fld("Type", "kind", kinds[1])}), []any{false, 7}},
+		{reflect.StructOf([]reflect.StructField{fld("Kind", "type,omitempty", stringType), fld("Type", "kind", stringType)}), []any{"", "x"}},
+		{reflect.StructOf([]reflect.StructField{fld("Label", "name,omitempty", stringType), fld("Name", "label", stringType)}), []any{"", "y"}},
+		{reflect.StructOf([]reflect.StructField{fld("ID", "Key,omitempty", kinds[1]), fld("Key", "id", kinds[1])}), []any{0, 5}},
+	}
+	for _, a := range absent {
+		d, ok := describe(a.rt)
+		if !ok {
+			continue
+		}
+		for empty := 0; empty < 2; empty++ {
+			v := reflect.New(a.rt).Elem()
+			for i, x := range a.vals {
+				if i == 0 && empty == 1 {
+					// the control: the field is NOT empty, its member is written and found under its key
+					switch v.Field(0).Kind() {
+					case reflect.Bool:
+						v.Field(0).SetBool(true)
+					case reflect.String:
+						v.Field(0).SetString("own")
+					default:
+						v.Field(0).SetInt(3)
+					}
+					continue
+				}
+				v.Field(i).Set(reflect.ValueOf(x).Convert(v.Field(i).Type()))
+			}
+			for _, route := range c16Routes {
+				emit(&c16Case{d: d, v: v, spec: c16Plans[2], route: route})
+			}
+		}
+	}
+	// the same with omitempty on random fields and zero values in them (seeded): judged by the predicate
+	for ti, rt := range types {
+		var fs []reflect.StructField
+		any := false
+		for i := 0; i < rt.NumField(); i++ {
+			f := rt.Field(i)
+			if tag, _ := f.Tag.Lookup("json"); tag != "" && r.Intn(2) == 0 {
+				f.Tag = reflect.StructTag(`json:"` + tag + `,omitempty"`)
+				any = true
+			}
+			fs = append(fs, f)
+		}
+		ot := reflect.StructOf(fs)
+		d, ok := describe(ot)
+		if !any || !ok {
+			continue
+		}
+		vg := &valGen{r: lib.NewRng(seed + uint64(1000+ti)), c16: true, noNil: true}
+		v := vg.newValue(ot, 2)
+		for i := 0; i < ot.NumField(); i++ {
+			if tag, _ := ot.Field(i).Tag.Lookup("json"); strings.Contains(tag, ",omitempty") && r.Intn(3) != 0 {
+				v.Field(i).Set(reflect.Zero(ot.Field(i).Type))
+			}
+		}
+		for _, route := range c16Routes {
+			emit(&c16Case{d: d, v: v, spec: c16Plans[2], route: route})
+		}
 	}
 	for ti, rt := range types {
 		d, ok := describe(rt)
